@@ -1,4 +1,5 @@
 import IdenaModel.Model.CeremonyEpoch
+import IdenaModel.Model.Shards
 import IdenaModel.Drivers.Util
 /-! Driver for channel C01 (replica histories): the ceremony records of a node under blocks, resets and restarts.
 ops: `new` | `blk <finish 0|1> <tx,tx,…|->` with tx = `sender:kind:payload` | `reset <k>` (the newest k blocks are removed)
@@ -56,6 +57,11 @@ def step (st : St) (line : String) : St × String :=
           if j ≤ blocks.length then ({ st with n := st.n.step true (.resetAcross j) }, "ok") else (st, "unsupported")
   | ["restart"] => ({ st with n := st.n.step true .restart }, "ok")
   | ["ans"] => (st, showAns st)
+  -- `shards <min> <max> <networkSize> <currentShards>`: common.CalculateShardsNumber (model: Model/Shards.lean)
+  | ["shards", mi, ma, n, cur] =>
+    match mi.toNat?, ma.toNat?, n.toNat?, cur.toNat? with
+    | some mi, some ma, some n, some cur => (st, s!"num {IdenaModel.Shards.shardsNum mi ma n cur}")
+    | _, _, _, _ => (st, "bad-op")
   | _ => (st, "bad-op")
 
 end IdenaModel.Drv.C01H
